@@ -116,7 +116,23 @@ def corpus():
         member["owners"] = [[1, ctx.h(1), 101, 1]]
         out.append((ctx, dl.scenario(ctx, dl.mk_dep(ctx, 2), [r1, r2], [{"op": "dep"}, {"op": "race", "name": ctx.h(1), "with": ctx.h(2), "at": at}],
                                      store=[member])))
-    return out + handover_corpus() + namespace_corpus()
+    return out + handover_corpus() + namespace_corpus() + fault_corpus()
+
+
+def fault_corpus():
+    """The same request (Get / List / Create / status update; Update of a revision) fails in two consecutive passes, then the API works
+    again: every failed pass has to return the error (the work queue retries nothing else), the third pass creates the ObjectSet."""
+    ctx = dl.Ctx(dl.ALPHABET)
+    out = []
+    for n in (0, 1, 2, 3):
+        for kind in ("err", "lost"):
+            f = {"op": "dep", "fault": [n, kind]}
+            out.append((ctx, dl.scenario(ctx, dl.mk_dep(ctx, 1), [], [f, dict(f), {"op": "dep"}, {"op": "set", "name": ctx.h(1)}, {"op": "dep"}])))
+    old = dl.mk_dset(ctx, ctx.h(2), 101, 2, 1, hash=ctx.h(2), conds=[AV_F(1)], ctrlof=[{"gk": 1, "ns": 1, "name": 1}])
+    for n in (2, 3, 4):
+        f = {"op": "dep", "fault": [n, "err"]}
+        out.append((ctx, dl.scenario(ctx, dl.mk_dep(ctx, 3), [old], [f, dict(f), {"op": "dep"}, {"op": "set", "name": ctx.h(3)}, {"op": "dep"}, {"op": "dep"}])))
+    return out
 
 
 def namespace_corpus():
